@@ -155,6 +155,9 @@ def rawFrame (flag : UInt8) (p : Bytes) : Bytes := flag :: u32be p.length ++ p
 
 def flagOk (fl : UInt8) : Prop := fl = 0 ∨ fl = 1 ∨ fl = 128
 
+/-- the wire form of a list of (flag, payload) frames -/
+def encItems (items : List (UInt8 × Bytes)) : Bytes := items.flatMap (fun i => rawFrame i.1 i.2)
+
 /-- The body is a sequence of complete frames with known flags — i.e. it is NOT cut off inside
 a frame (header or payload) and carries no unknown frame type. -/
 def WellFramed (body : Bytes) : Prop :=
